@@ -23,6 +23,10 @@ Qed.
 Lemma ex_number_isnumber : forall t, ex_no t = true -> ex_no t = true.
 Proof. auto. Qed.
 
+Lemma oracle_hypotheses_inhabited :
+  (forall c, ex_print c = true -> is_break c = false) /\ (forall t, ex_no t = true -> ex_no t = true).
+Proof. exact (conj ex_print_not_break ex_number_isnumber). Qed.
+
 Definition nl1 : str := [c_nl].
 Definition val_suffix : str := [c_nl].
 Definition key_suffix : str := s_ ": 1
